@@ -15,9 +15,9 @@ from rv.probes import ReachProbe
 
 PROP = 'C02'
 LEVEL = 'exploration'
-RULE = ('exhaustive: every string of length <= L (L=4 quick, 6 thorough) over the 18-symbol escape alphabet '
-        '[\\ " \' CR LF TAB VT BS FF BEL ? / n t a x SPACE {], both escaping modes, each fed through the real '
-        'tokenizer; random: strings over all Unicode scalar values (len<=64) plus every BMP code point once '
+RULE = ('exhaustive: every string of length <= L (L=4 quick, 6 thorough) over the 19-symbol escape alphabet '
+        '[\\ " \' CR LF TAB VT BS FF BEL ? / n t a x SPACE { BOM], both escaping modes, each fed through the real '
+        'tokenizer as one string, character by character and cut once at a rotating position; random: strings over all Unicode scalar values (len<=64) plus every BMP code point once '
         '(thorough); embedded: the escaped text planted as key / value / middle sibling of a line and read by the '
         'owning parser (Tokenizer, Keyvalues.parse, VMF.parse, BSP entity tokenizer set-up, DMX keyvalues2). '
         'A case is non-trivial when the string contains at least one character of the escape alphabet '
@@ -26,15 +26,16 @@ ASSUMPTIONS = ['Python implementation of Tokenizer/escape_text (the Cython twin 
                '"line break" means CR or LF, as the quantifier names them']
 JOBS = {'quick': 1, 'thorough': 16}
 
-ALPHABET = ['\\', '"', "'", '\r', '\n', '\t', '\v', '\b', '\f', '\a', '?', '/', 'n', 't', 'a', 'x', ' ', '{']
+ALPHABET = ['\\', '"', "'", '\r', '\n', '\t', '\v', '\b', '\f', '\a', '?', '/', 'n', 't', 'a', 'x', ' ', '{', '\ufeff']
 ESC_CHARS = set('\\"\'\r\n\t\v\b\f\a?/')
 
 
-def _tokens(text: str) -> List[Tuple[Any, str]]:
+def _tokens(text: Any) -> List[Tuple[Any, str]]:
+    """text: one str, or a list of str chunks (the tokenizer accepts any iterable of strings)."""
     from srctools.tokenizer import Tokenizer, Token
     tok = Tokenizer(text, allow_escapes=True)
     out = []
-    for _ in range(len(text) + 5):
+    for _ in range(sum(map(len, text)) + 5 if not isinstance(text, str) else len(text) + 5):
         t = tok()
         out.append(t)
         if t[0] is Token.EOF:
@@ -75,7 +76,33 @@ def check_one(run, s: str, multiline: bool, engine: str) -> bool:
                       witness={'escaped': esc, 'tokens': [(t.name, v) for t, v in toks]}, case=case,
                       engine=engine, key='not-inverse')
         ok = False
+    if not ok:
+        return ok
+    # the same quoted text delivered in pieces (character by character, and cut once at a position that rotates with
+    # the string): "tokenizing it" must not depend on how the text reaches the tokenizer
+    quoted = '"' + esc + '"'
+    cut = 1 + (hash_pos(s) % (len(quoted) - 1))
+    for how, chunks in (('chars', list(quoted)), ('cut@%d' % cut, [quoted[:cut], quoted[cut:]])):
+        try:
+            toks = _tokens(chunks)
+        except Exception as exc:
+            run.violation(f'tokenizer raised {exc!r} for the escaped text delivered as {how}', witness={'escaped': esc},
+                          case=case, engine=engine, key='not-inverse-chunked')
+            return False
+        if len(toks) != 2 or toks[0][0] is not Token.STRING or toks[0][1] != s or toks[1][0] is not Token.EOF:
+            run.violation(f'tokenizing the quoted escaped text delivered as {how} did not reproduce the string',
+                          witness={'escaped': esc, 'tokens': [(t.name, v) for t, v in toks]}, case=case,
+                          engine=engine, key='not-inverse-chunked')
+            return False
+    run.count('chunked_deliveries', 2)
     return ok
+
+
+def hash_pos(s: str) -> int:
+    h = 0
+    for c in s:
+        h = (h * 131 + ord(c)) & 0xFFFFFFF
+    return h + len(s)
 
 
 def _has_raw_quote(esc: str) -> bool:
@@ -248,7 +275,7 @@ def main(run, shard=(0, 1)) -> None:
                  sample={'s': s, 'siblings': others} if i < 2 else None, tag='embedded')
     probe.report(run)
     probe.check_reached(run)
-    run.require('exhaustive_strings_x_modes', 'embedded_line', 'embedded_kv', 'embedded_vmf', 'embedded_bsp', 'embedded_dmx')
+    run.require('exhaustive_strings_x_modes', 'chunked_deliveries', 'embedded_line', 'embedded_kv', 'embedded_vmf', 'embedded_bsp', 'embedded_dmx')
 
 
 def replay(run, data) -> None:
